@@ -94,15 +94,18 @@ def valid_order(params) -> bool:
     return True
 
 
-def build(params, binding: str, raises: bool):
+def build(params, binding: str, raises: bool, unres: bool = False):
     names = [p[0] for p in params]
     body = '    """doc of f"""\n    LOG.append((' + "".join(n + ", " for n in names) + "))\n"
     body += "    raise BOOM\n" if raises else "    return LOG[-1]\n"
     sig = sig_src(params)
+    # `unres`: a return hint naming something that is never defined -> the hints cannot be resolved, the wrapper
+    # warns and must hand the call through untouched (positional AND keyword arguments)
+    ret = ' -> "NeverDefinedAnywhere"' if unres else ""
     src = ""
     for tag, dec in (("dec", "@dltype.dltyped()\n"), ("raw", "")):
         if binding == "function":
-            src += f"{dec}def f_{tag}({sig}):\n{body}"
+            src += f"{dec}def f_{tag}({sig}){ret}:\n{body}"
         else:
             first = {"method": "self", "classmethod": "cls", "staticmethod": ""}[binding]
             inner_dec = "".join("    " + l + "\n" for l in dec.splitlines())
@@ -110,7 +113,7 @@ def build(params, binding: str, raises: bool):
             fs = ", ".join(x for x in [first, sig] if x)
             if fs.startswith(("self, /", "cls, /")):
                 pass
-            src += f"class K_{tag}:\n{wrap}{inner_dec}    def f({fs}):\n" + "".join("    " + l + "\n" for l in body.splitlines())
+            src += f"class K_{tag}:\n{wrap}{inner_dec}    def f({fs}){ret}:\n" + "".join("    " + l + "\n" for l in body.splitlines())
     MOD.LOG = []
     exec(compile(src, "<c16>", "exec"), MOD.__dict__)  # noqa: S102
     if binding == "function":
@@ -136,8 +139,9 @@ def call_args(params, style: str):
 
 def observe_func(case) -> str:
     params, binding, style, raises = case.meta["params"], case.meta["binding"], case.meta["style"], case.meta["raises"]
+    unres = case.meta.get("unres", False)
     try:
-        dec, raw = build(params, binding, raises)
+        dec, raw = build(params, binding, raises, unres)
     except SyntaxError as e:
         return "skip-invalid-signature " + str(e)[:40]
     diffs = []
@@ -163,7 +167,7 @@ def observe_func(case) -> str:
     d, r = outs
     bad_default_used = any(dft == "BAD" and ann and (style == "omit") for n, k, ann, dft in params)
     nonarray_default_used = any(dft not in ("-", "GOOD", "BAD") and ann and (style == "omit") for n, k, ann, dft in params)
-    if bad_default_used or nonarray_default_used:
+    if (bad_default_used or nonarray_default_used) and not unres:
         # a default value is checked like a passed one
         if d[0] != "dltype" or d[2]:
             diffs.append(f"violating-default-not-rejected({d[0]})")
@@ -201,6 +205,9 @@ def func_cases(tier, rng):
                 for style in ("pos", "kw", "omit"):
                     meta = {"params": params, "binding": binding, "style": style, "raises": rng.random() < 0.25}
                     out.append(Case(f"TWINFUNC\t{binding}\t{style}\t{sig_src(params)}\t{'raises' if meta['raises'] else 'returns'}", "func", meta))
+                    if n <= 2 and rng.random() < (0.5 if n == 1 else 0.12):
+                        m2 = dict(meta, unres=True)
+                        out.append(Case(f"TWINFUNC\t{binding}\t{style}\t{sig_src(params)}\t{'raises' if meta['raises'] else 'returns'}\tunresolvable-hints", "func", m2))
     return out
 
 
